@@ -1038,3 +1038,26 @@ def shadowed_global_rule(report, p, rid):
     r.instance(None, None, "reads are judged by reachability from the function entry without passing a binding")
     r.check(True, None, None, "")
     return r
+
+
+def resolve_local_iterable(f, expr):
+    """the expression a loop really iterates: a local name bound exactly once in f is replaced by its value, and `X if <X's receiver> else []` (an empty
+    fall-back for a missing object) by X"""
+    e = expr
+    for _ in range(3):
+        if isinstance(e, ast.Name) and f is not None and e.id not in f.params:
+            binds = [a for a in walk_no_nested(f.node) if isinstance(a, ast.Assign) and len(a.targets) == 1 and isinstance(a.targets[0], ast.Name) and a.targets[0].id == e.id]
+            stores = [n for n in walk_no_nested(f.node) if isinstance(n, ast.Name) and n.id == e.id and isinstance(n.ctx, ast.Store)]
+            if len(binds) == 1 and len(stores) == 1:
+                e = binds[0].value
+                continue
+        if isinstance(e, ast.IfExp):
+            empty = lambda x: isinstance(x, (ast.List, ast.Tuple)) and not x.elts
+            if empty(e.orelse) and not empty(e.body):
+                e = e.body
+                continue
+            if empty(e.body) and not empty(e.orelse):
+                e = e.orelse
+                continue
+        break
+    return e
